@@ -43,6 +43,7 @@ class Contract:
         self.loops = {}        # k -> dict(inv=[(label, expr)], dec=expr|None, iter=name|None, ens=[...])
         self.hints = []        # (anchor, label|None, text, is_obligation)
         self.rewrites = []     # (rule, count, old, new)
+        self.prerewrites = []  # same, applied before the generic rules
         self.attrs = []
         self.serves = None
         self.mode = 'exec'
@@ -144,6 +145,10 @@ def parse_vc(path):
                 label = label.strip()
                 text = 'assert(%s);' % text.strip()
             cur.hints.append((anchor.strip(), label, text.strip('\n'), head == '@assert'))
+        elif head == '@prerewrite':
+            mm = re.match(r'(\S+)\s+(\d+)\s+(.*)$', rest, re.S)
+            old, new = _parse_quoted(mm.group(3))
+            cur.prerewrites.append((mm.group(1), int(mm.group(2)), old, new))
         elif head == '@rewrite':
             mm = re.match(r'(\S+)\s+(\d+)\s+(.*)$', rest, re.S)
             if not mm:
@@ -328,7 +333,13 @@ def weave_fn(fn_text, contract, unit, log, features_on, in_trait_impl=False, rea
     name = contract.fn_name if contract else re.search(r'\bfn\s+(\w+)', fn_text).group(1)
     qual = '%s.%s' % (unit, name)
     text = fn_text
-    # function-specific rewrites first (they may address text that generic rules delete? no: generic first)
+    if contract:
+        for (rule, count, old, new) in contract.prerewrites:
+            n = text.count(old)
+            if n != count:
+                raise LostAnchor("%s: @prerewrite %s expects %d occurrence(s) of %r, found %d" % (name, rule, count, old, n))
+            text = text.replace(old, new)
+            log.append(dict(rule=rule, fn=name, what='%r => %r (x%d)' % (old, new, count)))
     text = rule_R1_R2(text, log, name, features_on)
     text = rule_R4(text, log, name)
     if contract:
